@@ -2,7 +2,7 @@
 from . import unit_encode
 
 ID = 'C01'
-BUDGET_S = {'quick': 150, 'thorough': 1800}
+BUDGET_S = {'quick': 150, 'thorough': 3600}
 SHAPE_WALL_S = {'quick': 60, 'thorough': 300}
 FAMILY = ('UNIT-A: field layouts (size, byte_align, endian) enumerated, every field value symbolic; PIPE-B: generated ISA '
           'definitions (every operand type, prefix/suffix code position, opcode suffix, reverse options, per-field endianness '
